@@ -303,6 +303,10 @@ pub struct Scenario {
     pub health_check: bool,
     /// stop as soon as every transaction is gone and the link has been quiet for 2 s
     pub stop_when_quiet: bool,
+    /// hook H5: every transaction task yields this many times before each look at its timers and mailbox (0 = as is); with 2..4
+    /// a PDU delivered in the instant of a timer expiry is found ready together with the timer and the seeded select! picks
+    #[serde(default)]
+    pub yields: u8,
 }
 
 impl Scenario {
@@ -337,6 +341,7 @@ impl Scenario {
             preload: vec![],
             health_check: false,
             stop_when_quiet: true,
+            yields: 0,
         }
     }
 
@@ -645,7 +650,9 @@ pub fn run_scenario(sc: &Scenario) -> Trace {
         .expect("runtime");
     set_panic_quiet(true);
     let _ = take_panics();
+    cfdp_daemon::verif::set_poll_delay(sc.yields);
     let mut trace = rt.block_on(run_async(sc, roots.clone()));
+    cfdp_daemon::verif::set_poll_delay(0);
     // dropping the runtime drops every task (daemons, transactions) that is still around
     drop(rt);
     set_panic_quiet(false);
